@@ -436,7 +436,7 @@ theorem Runs.call {G : GCtx} {A : Act} (hA : A.OK G) {ipc : Nat} {g : String} {s
     (hx : A.c[ipc]? = some (.callImm g, sp))
     (h : RunsCall G g (⟨A.fn, ipc + 1⟩ :: A.rest) A.mp stk mem out stk' mem' out') :
     Runs G.fr G.code G.lim G.s A.fn A.rest A.mp ipc stk mem out (ipc + 1) stk' mem' out' := by
-  intro k
+  refine ⟨fun k => ?_, h.inv⟩
   obtain ⟨k', e⟩ := h (k + 1)
   refine ⟨1 + k', ?_⟩
   rw [execHN_add, execHN_one, exec1H_of_next (mkSI_callImm G.code G.lim G.s A.fn ipc A.rest A.mp k stk mem out A.c hA.code g sp hx)]
@@ -460,7 +460,7 @@ theorem RunsT.of_call {G : GCtx} {A : Act} (hA : A.OK G) {ip ipc : Nat} {g : Str
     (hx : A.c[ipc]? = some (.callImm g, sp))
     (h : RunsCallT G g (⟨A.fn, ipc + 1⟩ :: A.rest) A.mp (ys ++ stk) stk mem1 out1 msg tsp mem' out') :
     RunsT G A.fn A.rest A.mp ip stk mem out msg tsp mem' out' := by
-  intro k
+  refine ⟨fun k => ?_, fun hi => h.inv (h1.inv hi)⟩
   obtain ⟨k1, e1⟩ := h1 k
   obtain ⟨k2, s1, frames', mp', xs, e2, e3⟩ := h (k + k1 + 1)
   refine ⟨k1 + (1 + k2), s1, frames', ipc + 1, mp', xs, ?_, ?_⟩
